@@ -33,6 +33,32 @@ Subset and its reading (A-JS, listed in the evidence of every check that uses a 
   o.p  (p other than length)                o.p        (records with fixed fields: typed as named tuples in the contracts)
   xs.concat(ys)                             xs + ys    (a new list)
   'text' + (arithmetic with a number)       'text' + str(arithmetic)    (JS number-to-string of an integer)
+  'text' + x,  `...${x}...`                 'text' + __js_str(x)        (String(x): x itself when it is a string; the text of a number, key or
+                                                                         cell otherwise - an uninterpreted function of the value for non-strings)
+Classes (added for C19):
+  class C [extends B] { constructor(a) {...}  m(x) {...}  async m(x) {...} }
+                                            class C(B): def __init__(self, a): ...; def m(self, x): ...
+                                            `this` -> self; super() with no arguments in a constructor is dropped (the base constructors
+                                            of rbql.js are empty); super(...rest) of an Error subclass is dropped too (the message);
+                                            constructor(a, ...rest) -> def __init__(self, a, *rest); static members, getters, setters: rejected
+  break                                     break
+  async m() / await e                       the method / e          (A-JS-AWAIT: an awaited call has completed when the next
+                                                                     statement runs; interleaving with OTHER tasks touching the same
+                                                                     objects is outside the properties, which exclude concurrent queries)
+  new Map() / new Set()                     {} / set()
+  m.get(k)                                  __js_map_get(m, k)   an Opt of the value type: `undefined` for a missing key is distinct from every
+                                                                 stored value, also from a stored null;  x === undefined -> x is None
+  m.set(k, v);  (statement)                 m[k] = v
+  m.has(k)                                  k in m
+  s.add(v), s.size / m.size                 s.add(v), len(s)
+  Math.min(a, b) / Math.max(a, b)           __js_math_min(a, b) / __js_math_max(a, b)   (Python's builtin min / max on two numbers; rbql.js itself defines `min = MIN`)
+  JSON.stringify(record)                    tuple(record)   (A-JS-KEY: used only as a Map/Set key; injective on records of strings,
+                                                             integers and null - validated by the bounded C19 job)
+  new C(args)  (C a class of the module)    C(args)
+  xs.unshift(e)                             xs.insert(0, e)
+  let [a, b] = e                            (a, b) = e
+  for (var [k, v] of m)                     for (k, v) in m.items()
+  x += e on this.f / xs[i]                  augmented assignment on attributes / subscripts
 Anything else raises Unsupported and the function is reported out of subset.
 """
 import ast
@@ -68,15 +94,19 @@ class Translator(object):
         self.local_regex = {}
         self.match_vars = set()
         self.tuple_vars = set()
+        self.str_consts = set()       # module-level const names initialised with a certainly-string expression
+        self.class_names = set()      # classes declared in the module: new C(...) -> C(...)
+        self.method_names = set()     # methods declared by those classes: o.m(...) stays a method call
 
     # ------------------------------------------------------------------ functions
-    def function(self, fn):
-        if fn.get('async') or fn.get('generator'):
-            raise Unsupported('async / generator function')
+    def function(self, fn, name=None, method=False):
+        if fn.get('generator'):
+            raise Unsupported('generator function')
         self.local_regex = {}
         self.match_vars = set()
-        args = []
+        args = [ast.arg(arg='self')] if method else []
         defaults = []
+        vararg = None
         for p in fn['params']:
             if p['type'] == 'Identifier':
                 if defaults:
@@ -85,14 +115,54 @@ class Translator(object):
             elif p['type'] == 'AssignmentPattern' and p['left']['type'] == 'Identifier':
                 args.append(ast.arg(arg=p['left']['name']))
                 defaults.append(self.expr(p['right']))
+            elif p['type'] == 'RestElement' and p['argument']['type'] == 'Identifier' and p is fn['params'][-1]:
+                vararg = ast.arg(arg=p['argument']['name'])
             else:
                 raise Unsupported('parameter pattern %s' % p['type'])
         body = self.block(fn['body'])
-        node = ast.FunctionDef(name=fn['id']['name'], args=ast.arguments(posonlyargs=[], args=args, vararg=None, kwonlyargs=[], kw_defaults=[], kwarg=None, defaults=defaults),
+        node = ast.FunctionDef(name=name or fn['id']['name'], args=ast.arguments(posonlyargs=[], args=args, vararg=vararg, kwonlyargs=[], kw_defaults=[], kwarg=None, defaults=defaults),
                                body=body or [ast.Pass()], decorator_list=[], returns=None, type_comment=None)
         _loc(node, fn)
         ast.fix_missing_locations(node)
         return node
+
+    def klass(self, n, class_names):
+        base = n.get('superClass')
+        bases = []
+        if base is not None:
+            if base['type'] != 'Identifier':
+                raise Unsupported('computed base class')
+            bases = [ast.Name(id='Exception' if base['name'] == 'Error' else base['name'], ctx=ast.Load())]
+        body = []
+        skipped = {}
+        for m in n['body']['body']:
+            mname = m.get('key', {}).get('name', '?')
+            try:
+                if m['type'] != 'MethodDefinition' or m.get('static') or m['kind'] not in ('constructor', 'method') or m.get('computed'):
+                    raise Unsupported('class member %s/%s' % (m['type'], m.get('kind')))
+                fn = m['value']
+                if m['kind'] == 'constructor':
+                    # super(); with no arguments: dropped (the base constructors in the subset take no arguments and set nothing, checked by the caller)
+                    stmts = fn['body']['body']
+                    keep = []
+                    for st in stmts:
+                        if (st['type'] == 'ExpressionStatement' and st['expression']['type'] == 'CallExpression' and st['expression']['callee']['type'] == 'Super'):
+                            sargs = st['expression']['arguments']
+                            rest = [q['argument']['name'] for q in fn['params'] if q['type'] == 'RestElement' and q['argument']['type'] == 'Identifier']
+                            only_rest = (len(sargs) == 1 and sargs[0]['type'] == 'SpreadElement' and sargs[0]['argument']['type'] == 'Identifier' and sargs[0]['argument']['name'] in rest)
+                            if sargs and not (only_rest and base is not None and base['name'] == 'Error'):
+                                raise Unsupported('super(...) with arguments')
+                            continue        # super(...rest) of an Error subclass passes the message on: the translated class keeps no message
+                        keep.append(st)
+                    fn = dict(fn, body=dict(fn['body'], body=keep))
+                    body.append(self.function(fn, name='__init__', method=True))
+                else:
+                    body.append(self.function(fn, name=mname, method=True))
+            except Unsupported as e:
+                skipped[n['id']['name'] + '.' + mname] = str(e)
+        node = ast.ClassDef(name=n['id']['name'], bases=bases, keywords=[], body=body or [ast.Pass()], decorator_list=[])
+        _loc(node, n)
+        return node, skipped
 
     def block(self, b):
         stmts = b['body'] if b['type'] == 'BlockStatement' else [b]
@@ -107,6 +177,10 @@ class Translator(object):
         if t == 'VariableDeclaration':
             out = []
             for d in s['declarations']:
+                if d['id']['type'] == 'ArrayPattern' and d['init'] is not None and all(x is not None and x['type'] == 'Identifier' for x in d['id']['elements']):
+                    tgt = ast.Tuple(elts=[ast.Name(id=x['name'], ctx=ast.Store()) for x in d['id']['elements']], ctx=ast.Store())
+                    out.append(_loc(ast.Assign(targets=[tgt], value=self.expr(d['init']), type_comment=None), s))
+                    continue
                 if d['id']['type'] != 'Identifier':
                     raise Unsupported('destructuring declaration')
                 name = d['id']['name']
@@ -133,6 +207,12 @@ class Translator(object):
                 return [self.assign(e, s)]
             if e['type'] == 'UpdateExpression':
                 return [self.update(e, s)]
+            if e['type'] == 'AwaitExpression':
+                e = e['argument']
+            if (e['type'] == 'CallExpression' and e['callee']['type'] == 'MemberExpression' and not e['callee']['computed']
+                    and e['callee']['property']['name'] == 'set' and len(e['arguments']) == 2):
+                tgt = ast.Subscript(value=self.expr(e['callee']['object']), slice=self.expr(e['arguments'][0]), ctx=ast.Store())
+                return [_loc(ast.Assign(targets=[tgt], value=self.expr(e['arguments'][1]), type_comment=None), s)]
             if e['type'] == 'CallExpression' and e['callee']['type'] == 'Identifier' and e['callee']['name'] == 'assert' and 1 <= len(e['arguments']) <= 2:
                 return [_loc(ast.Assert(test=self.expr(e['arguments'][0]), msg=None), s)]
             return [_loc(ast.Expr(value=self.expr(e)), s)]
@@ -177,6 +257,12 @@ class Translator(object):
                 tgt = ast.Name(id=left['declarations'][0]['id']['name'], ctx=ast.Store())
             elif left['type'] == 'Identifier':
                 tgt = ast.Name(id=left['name'], ctx=ast.Store())
+            elif (left['type'] == 'VariableDeclaration' and len(left['declarations']) == 1 and left['declarations'][0]['id']['type'] == 'ArrayPattern'
+                  and len(left['declarations'][0]['id']['elements']) == 2 and all(x is not None and x['type'] == 'Identifier' for x in left['declarations'][0]['id']['elements'])):
+                # for (var [k, v] of m)  ->  for (k, v) in m.items()
+                tgt = ast.Tuple(elts=[ast.Name(id=x['name'], ctx=ast.Store()) for x in left['declarations'][0]['id']['elements']], ctx=ast.Store())
+                it = ast.Call(func=ast.Attribute(value=self.expr(s['right']), attr='items', ctx=ast.Load()), args=[], keywords=[])
+                return [_loc(ast.For(target=tgt, iter=it, body=self.block(s['body']) or [ast.Pass()], orelse=[], type_comment=None), s)]
             else:
                 raise Unsupported('for-of with a destructuring target')
             return [_loc(ast.For(target=tgt, iter=self.expr(s['right']), body=self.block(s['body']) or [ast.Pass()], orelse=[], type_comment=None), s)]
@@ -190,6 +276,8 @@ class Translator(object):
             return self.block(s)
         if t == 'EmptyStatement':
             return []
+        if t == 'BreakStatement' and s.get('label') is None:
+            return [_loc(ast.Break(), s)]
         raise Unsupported('statement %s at line %d' % (t, s['loc']['start']['line']))
 
     def assign(self, e, s):
@@ -204,21 +292,47 @@ class Translator(object):
         raise Unsupported('assignment operator %s' % e['operator'])
 
     def update(self, e, s):
-        if e['argument']['type'] != 'Identifier':
-            raise Unsupported('update of a non-variable')
         op = ast.Add() if e['operator'] == '++' else ast.Sub()
-        return _loc(ast.AugAssign(target=ast.Name(id=e['argument']['name'], ctx=ast.Store()), op=op, value=ast.Constant(value=1)), s)
+        return _loc(ast.AugAssign(target=self.lvalue(e['argument']), op=op, value=ast.Constant(value=1)), s)
 
     def lvalue(self, e):
         if e['type'] == 'Identifier':
             return ast.Name(id=e['name'], ctx=ast.Store())
         if e['type'] == 'MemberExpression' and e['computed']:
             return ast.Subscript(value=self.expr(e['object']), slice=self.expr(e['property']), ctx=ast.Store())
+        if e['type'] == 'MemberExpression' and not e['computed'] and e['property']['name'] not in ('length', 'prototype', 'constructor', '__proto__'):
+            return ast.Attribute(value=self.expr(e['object']), attr=e['property']['name'], ctx=ast.Store())
         raise Unsupported('assignment target %s' % e['type'])
 
     # ------------------------------------------------------------------ expressions
     def cond(self, e):
         return self.expr(e)
+
+    def _textlike(self, x):
+        """certainly a string: a string literal, a template literal, or a + with a certainly-string operand"""
+        if x['type'] == 'Literal' and isinstance(x.get('value'), str) and 'regex' not in x:
+            return True
+        if x['type'] == 'TemplateLiteral':
+            return True
+        if x['type'] == 'Identifier' and x['name'] in self.str_consts:
+            return True
+        if x['type'] == 'BinaryExpression' and x['operator'] == '+':
+            return self._textlike(x['left']) or self._textlike(x['right'])
+        return False
+
+    def _is_arith(self, x):
+        if x['type'] != 'BinaryExpression' or x['operator'] not in ('+', '-', '*'):
+            return False
+        has_num = lambda y: (y['type'] == 'Literal' and isinstance(y.get('value'), (int, float)) and not isinstance(y.get('value'), bool)) or (y['type'] == 'BinaryExpression' and (has_num(y['left']) or has_num(y['right'])))
+        return has_num(x) and not self._textlike(x['left']) and not self._textlike(x['right'])
+
+    def _as_text(self, x):
+        """operand of a string concatenation: JavaScript converts it with String(); integers print as in Python"""
+        if self._textlike(x):
+            return self.expr(x)
+        if self._is_arith(x):
+            return ast.Call(func=ast.Name(id='str', ctx=ast.Load()), args=[self.expr(x)], keywords=[])
+        return ast.Call(func=ast.Name(id='__js_str', ctx=ast.Load()), args=[self.expr(x)], keywords=[])
 
     def _is_exec(self, e):
         return (e['type'] == 'CallExpression' and e['callee']['type'] == 'MemberExpression' and not e['callee']['computed']
@@ -236,9 +350,13 @@ class Translator(object):
 
     def expr(self, e):
         t = e['type']
+        if t == 'ThisExpression':
+            return _loc(ast.Name(id='self', ctx=ast.Load()), e)
+        if t == 'AwaitExpression':
+            return self.expr(e['argument'])
         if t == 'Identifier':
             if e['name'] == 'undefined':
-                raise Unsupported('undefined')
+                raise Unsupported('undefined outside a comparison')
             return _loc(ast.Name(id=e['name'], ctx=ast.Load()), e)
         if t == 'Literal':
             if 'regex' in e:
@@ -253,7 +371,7 @@ class Translator(object):
                 if q['value']['cooked']:
                     parts.append(ast.Constant(value=q['value']['cooked']))
                 if i < len(e['expressions']):
-                    parts.append(self.expr(e['expressions'][i]))
+                    parts.append(self._as_text(e['expressions'][i]))
             if not parts:
                 return ast.Constant(value='')
             r = parts[0]
@@ -284,7 +402,7 @@ class Translator(object):
             o = e['operator']
             l, r = e['left'], e['right']
             if o in ('===', '==', '!==', '!='):
-                isnull = lambda x: x['type'] == 'Literal' and x['value'] is None and 'regex' not in x
+                isnull = lambda x: (x['type'] == 'Literal' and x['value'] is None and 'regex' not in x) or (x['type'] == 'Identifier' and x['name'] == 'undefined' and o in ('===', '!=='))
                 if isnull(r) or isnull(l):
                     other = l if isnull(r) else r
                     op = ast.Is() if o in ('===', '==') else ast.IsNot()
@@ -296,20 +414,17 @@ class Translator(object):
                 return _loc(ast.Compare(left=self.expr(l), ops=[cmp[o]], comparators=[self.expr(r)]), e)
             ar = {'+': ast.Add(), '-': ast.Sub(), '*': ast.Mult()}
             if o == '+':
-                is_text = lambda x: (x['type'] == 'Literal' and isinstance(x.get('value'), str)) or x['type'] == 'TemplateLiteral'
-
-                def is_arith(x):
-                    if x['type'] != 'BinaryExpression' or x['operator'] not in ('+', '-', '*'):
-                        return False
-                    has_num = lambda y: (y['type'] == 'Literal' and isinstance(y.get('value'), (int, float)) and not isinstance(y.get('value'), bool)) or (y['type'] == 'BinaryExpression' and (has_num(y['left']) or has_num(y['right'])))
-                    return has_num(x) and not is_text(x['left']) and not is_text(x['right'])
-                if is_text(l) and is_arith(r):
-                    return _loc(ast.BinOp(left=self.expr(l), op=ast.Add(), right=ast.Call(func=ast.Name(id='str', ctx=ast.Load()), args=[self.expr(r)], keywords=[])), e)
-                if is_text(r) and is_arith(l):
-                    return _loc(ast.BinOp(left=ast.Call(func=ast.Name(id='str', ctx=ast.Load()), args=[self.expr(l)], keywords=[]), op=ast.Add(), right=self.expr(r)), e)
+                if self._textlike(l) or self._textlike(r):
+                    return _loc(ast.BinOp(left=self._as_text(l), op=ast.Add(), right=self._as_text(r)), e)
             if o in ar:
                 return _loc(ast.BinOp(left=self.expr(l), op=ar[o], right=self.expr(r)), e)
             raise Unsupported('binary %s' % o)
+        if t == 'NewExpression' and e['callee']['type'] == 'Identifier' and e['callee']['name'] == 'Map' and not e['arguments']:
+            return _loc(ast.Dict(keys=[], values=[]), e)
+        if t == 'NewExpression' and e['callee']['type'] == 'Identifier' and e['callee']['name'] == 'Set' and not e['arguments']:
+            return _loc(ast.Call(func=ast.Name(id='set', ctx=ast.Load()), args=[], keywords=[]), e)
+        if t == 'NewExpression' and e['callee']['type'] == 'Identifier' and e['callee']['name'] in self.class_names:
+            return _loc(ast.Call(func=ast.Name(id=e['callee']['name'], ctx=ast.Load()), args=[self.expr(a) for a in e['arguments']], keywords=[]), e)
         if t == 'NewExpression':
             self._regex_flags(e)
             return _loc(ast.Call(func=ast.Attribute(value=ast.Name(id='re', ctx=ast.Load()), attr='compile', ctx=ast.Load()), args=[self.expr(e['arguments'][0])], keywords=[]), e)
@@ -325,7 +440,11 @@ class Translator(object):
                         call = lambda a: ast.Call(func=ast.Attribute(value=ast.Name(id=m, ctx=ast.Load()), attr=a, ctx=ast.Load()), args=[], keywords=[])
                         return _loc(ast.BinOp(left=call('end'), op=ast.Sub(), right=call('start')), e)
                     return _loc(ast.Call(func=ast.Name(id='len', ctx=ast.Load()), args=[self.expr(obj)], keywords=[]), e)
+                if name == 'size':
+                    return _loc(ast.Call(func=ast.Name(id='len', ctx=ast.Load()), args=[self.expr(obj)], keywords=[]), e)
                 if obj['type'] == 'Identifier' and obj['name'] not in self.match_vars and name not in ('prototype', 'constructor', '__proto__'):
+                    return _loc(ast.Attribute(value=self.expr(obj), attr=name, ctx=ast.Load()), e)
+                if obj['type'] in ('ThisExpression', 'MemberExpression') and name not in ('prototype', 'constructor', '__proto__'):
                     return _loc(ast.Attribute(value=self.expr(obj), attr=name, ctx=ast.Load()), e)
                 raise Unsupported('property .%s' % name)
             if obj['type'] == 'Identifier' and obj['name'] in self.match_vars:
@@ -348,6 +467,18 @@ class Translator(object):
                         raise Unsupported('exec on a regex with the g flag outside the while-exec idiom')
                     return _loc(ast.Call(func=ast.Attribute(value=ast.Name(id=o['name'], ctx=ast.Load()), attr='match', ctx=ast.Load()),
                                          args=[self.expr(args[0]), ast.Constant(value=0)], keywords=[]), e)
+                if o['type'] == 'Identifier' and o['name'] == 'Math' and m in ('min', 'max') and len(args) == 2:
+                    return _loc(ast.Call(func=ast.Name(id='__js_math_' + m, ctx=ast.Load()), args=[self.expr(a) for a in args], keywords=[]), e)
+                if o['type'] == 'Identifier' and o['name'] == 'JSON' and m == 'stringify' and len(args) == 1:
+                    return _loc(ast.Call(func=ast.Name(id='tuple', ctx=ast.Load()), args=[self.expr(args[0])], keywords=[]), e)
+                if m == 'has' and len(args) == 1:
+                    return _loc(ast.Compare(left=self.expr(args[0]), ops=[ast.In()], comparators=[self.expr(o)]), e)
+                if m == 'get' and len(args) == 1:
+                    return _loc(ast.Call(func=ast.Name(id='__js_map_get', ctx=ast.Load()), args=[self.expr(o), self.expr(args[0])], keywords=[]), e)
+                if m == 'add' and len(args) == 1:
+                    return _loc(ast.Call(func=ast.Attribute(value=self.expr(o), attr='add', ctx=ast.Load()), args=[self.expr(args[0])], keywords=[]), e)
+                if m == 'unshift' and len(args) == 1:
+                    return _loc(ast.Call(func=ast.Attribute(value=self.expr(o), attr='insert', ctx=ast.Load()), args=[ast.Constant(value=0), self.expr(args[0])], keywords=[]), e)
                 if m == 'concat' and len(args) == 1:
                     return _loc(ast.BinOp(left=self.expr(o), op=ast.Add(), right=self.expr(args[0])), e)
                 if m == 'push' and len(args) == 1:
@@ -370,6 +501,8 @@ class Translator(object):
                         raise Unsupported('replace with a regex that is not a plain global literal')
                     return _loc(ast.Call(func=ast.Attribute(value=self.expr(o), attr='replace', ctx=ast.Load()),
                                          args=[ast.Constant(value=rx['pattern']), self.expr(args[1])], keywords=[]), e)
+                if m in self.method_names:
+                    return _loc(ast.Call(func=ast.Attribute(value=self.expr(o), attr=m, ctx=ast.Load()), args=[self.expr(a) for a in args], keywords=[]), e)
                 raise Unsupported('method .%s/%d at line %d' % (m, len(args), e['loc']['start']['line']))
             raise Unsupported('call form')
         if t == 'AssignmentExpression':
@@ -387,6 +520,21 @@ def translate_file(path, module_name):
     tr = Translator()
     body = []
     skipped = {}
+    # names assigned anywhere after their declaration (a module-level string that is never reassigned is a constant)
+    assigned = set()
+
+    def walk(x):
+        if isinstance(x, dict):
+            if x.get('type') == 'AssignmentExpression' and x['left'].get('type') == 'Identifier':
+                assigned.add(x['left']['name'])
+            if x.get('type') == 'UpdateExpression' and x['argument'].get('type') == 'Identifier':
+                assigned.add(x['argument']['name'])
+            for v in x.values():
+                walk(v)
+        elif isinstance(x, list):
+            for v in x:
+                walk(v)
+    walk(tree)
     # module-level constants first: string constants and `new RegExp(<string expr>)`
     for n in tree['body']:
         if n['type'] == 'VariableDeclaration':
@@ -394,14 +542,31 @@ def translate_file(path, module_name):
                 try:
                     if d['init'] is not None and d['init']['type'] == 'NewExpression':
                         tr.module_regexes[d['id']['name']] = (None, tr._regex_flags(d['init']))
+                    if d['init'] is not None and d['id']['type'] == 'Identifier' and d['id']['name'] not in assigned and tr._textlike(d['init']):
+                        tr.str_consts.add(d['id']['name'])
                     stmts = tr.stmt({'type': 'VariableDeclaration', 'declarations': [d], 'loc': n['loc'], 'kind': n['kind']})
                     body.extend(stmts)
                 except Unsupported as e:
                     skipped[d['id'].get('name', '?')] = str(e)
+    JS_BUILTIN_METHODS = ('get', 'set', 'has', 'add', 'push', 'pop', 'sort', 'reverse', 'split', 'join', 'replace', 'match', 'exec', 'slice', 'substring',
+                          'indexOf', 'charAt', 'concat', 'unshift', 'fill', 'startsWith', 'endsWith', 'toString', 'keys', 'values', 'entries', 'map', 'filter')
+    for n in tree['body']:
+        if n['type'] == 'ClassDeclaration':
+            tr.class_names.add(n['id']['name'])
+            for m in n['body']['body']:
+                if m['type'] == 'MethodDefinition' and m['kind'] == 'method' and not m.get('computed') and m['key']['name'] not in JS_BUILTIN_METHODS:
+                    tr.method_names.add(m['key']['name'])
     for n in tree['body']:
         if n['type'] == 'ClassDeclaration' and n.get('superClass') and n['superClass'].get('name') == 'Error' and not n['body']['body']:
             # class E extends Error {}  ->  class E(Exception): pass
             body.append(_loc(ast.ClassDef(name=n['id']['name'], bases=[ast.Name(id='Exception', ctx=ast.Load())], keywords=[], body=[ast.Pass()], decorator_list=[]), n))
+        elif n['type'] == 'ClassDeclaration':
+            try:
+                node, sk = tr.klass(n, tr.class_names)
+                body.append(node)
+                skipped.update(sk)
+            except Unsupported as e:
+                skipped[n['id']['name']] = str(e)
     for n in tree['body']:
         if n['type'] == 'FunctionDeclaration':
             try:
